@@ -10,7 +10,7 @@ def extra_lines(rng, tier):
         threads = "#".join(";".join(["NEXT"] * rng.randint(1, 5)) for _ in range(nt))
         # generators that have already issued many ids: decimal-length and word boundaries of the counter
         g0 = rng.choice([0, 0, 8, 98, 997, 9997, 9998, 9999, 10000, 99998, (1 << 32) - 2, (1 << 53) - 1, (1 << 64) - 3])
-        out.append("g%d|100||%s|%s%d|mode=O,gen0=%d" % (i, threads, rng.choice("rp"), rng.randint(1, 10 ** 9), g0))
+        out.append("g%d|100||%s|%s%d|mode=O,proj=gen+map+tk,gen0=%d" % (i, threads, rng.choice("rp"), rng.randint(1, 10 ** 9), g0))
     return out
 
 
@@ -39,4 +39,4 @@ def run(tier, seed, replay=None):
         "C14", tier, seed, replay,
         judges=[("ids distinct and derived from the counter", lambda rec, prog, info: conc.judge_ids(rec, info)),
                 ("counter steps", judge_repro)],
-        extra_lines=extra_lines, n_quick=1200, n_thorough=30000, flags="mode=O")
+        extra_lines=extra_lines, n_quick=1200, n_thorough=30000, flags="mode=O,proj=gen+map+tk", final_keys=())
